@@ -78,10 +78,10 @@ func gameStart(r *rand.Rand, kind int) (ref.Pos, gen.Bias, int) {
 
 func init() {
 	fw.Register(&fw.Monitor{
-		ID:        "C05",
-		Level:     "exploration",
-		Technique: "runtime reference-model monitor: game boards driven through generated histories (incl. forks and take-backs) in lock-step with an independent game-history model",
-		Rule: "one evaluation = one move played on a game board with the reference history model deciding repetition count, FIDE half-move clock and insufficient material; workload = shuffle-biased, no-progress-biased and trade-biased playouts from curated/synthetic/sparse starts with FEN clocks 0..99, random forks and take-backs; distinct = distinct games (start FEN + move list hash)",
+		ID:          "C05",
+		Level:       "exploration",
+		Technique:   "runtime reference-model monitor: game boards driven through generated histories (incl. forks and take-backs) in lock-step with an independent game-history model",
+		Rule:        "one evaluation = one move played on a game board with the reference history model deciding repetition count, FIDE half-move clock and insufficient material; workload = shuffle-biased, no-progress-biased and trade-biased playouts from curated/synthetic/sparse starts with FEN clocks 0..99, random forks and take-backs; distinct = distinct games (start FEN + move list hash)",
 		Assumptions: []string{"reference rules implementation and history model (package ref), validated against published perft numbers at start-up"},
 		Setup:       validateOracle,
 		Timeout:     minutes(10, 90),
@@ -117,10 +117,10 @@ func init() {
 	})
 
 	fw.Register(&fw.Monitor{
-		ID:        "C07",
-		Level:     "exploration",
-		Technique: "runtime invariant monitor: incremental hash compared with the from-scratch hash after every push/pop; global key<->hash maps over all states visited; single-component sensitivity probes",
-		Rule: "one evaluation = one hash observation after a push, pop or fork on a game board (incremental vs from-scratch, same position => same hash, different position => different hash, per table seed), plus sensitivity probes (one component of a position changed); distinct = distinct position keys visited",
+		ID:          "C07",
+		Level:       "exploration",
+		Technique:   "runtime invariant monitor: incremental hash compared with the from-scratch hash after every push/pop; global key<->hash maps over all states visited; single-component sensitivity probes",
+		Rule:        "one evaluation = one hash observation after a push, pop or fork on a game board (incremental vs from-scratch, same position => same hash, different position => different hash, per table seed), plus sensitivity probes (one component of a position changed); distinct = distinct position keys visited",
 		Assumptions: []string{"2^-64 coincidences ignored as the property states", "position identity = placement, side, rights, e.p. target as printed by the reference implementation"},
 		Setup:       validateOracle,
 		Timeout:     minutes(10, 90),
@@ -184,10 +184,10 @@ func init() {
 	})
 
 	fw.Register(&fw.Monitor{
-		ID:        "C08",
-		Level:     "exploration",
-		Technique: "runtime model-based monitor: random push / illegal push / take-back / fork sequences on several boards, each operation checked against recorded snapshots and a from-scratch rebuild",
-		Rule: "one evaluation = one snapshot comparison (after take-back vs before the matching push; other boards unchanged after an operation; line rebuilt from scratch); operations drawn at random over up to 4 forked boards with nesting depth up to 300; distinct = distinct operation sessions",
+		ID:          "C08",
+		Level:       "exploration",
+		Technique:   "runtime model-based monitor: random push / illegal push / take-back / fork sequences on several boards, each operation checked against recorded snapshots and a from-scratch rebuild",
+		Rule:        "one evaluation = one snapshot comparison (after take-back vs before the matching push; other boards unchanged after an operation; line rebuilt from scratch); operations drawn at random over up to 4 forked boards with nesting depth up to 300; distinct = distinct operation sessions",
 		Assumptions: []string{"forks are used within their documented contract: neither side takes back below the fork point", "Outcome Unknown and Undecided are the same observation (not decided)"},
 		Setup:       validateOracle,
 		Timeout:     minutes(10, 90),
